@@ -1425,3 +1425,19 @@ Corollary history_dense ops s : store_wf s -> frun s ops ->
   sim (fst (run false s ops)) (np_run (abs_store s) ops).
 Proof. intros Hw Hf. apply history_refines; auto. now apply sim_abs. Qed.
 
+
+Lemma kernels_keep_invariant : forall o a b k l r,
+  wf a -> wf b ->
+  (k_sparse false o a b = Ok r -> wf r) /\ (ik_sparse false o true a a = Ok r -> wf r) /\
+  (k_scalar o a k = Ok r -> wf r) /\ (k_array o a l = Ok r -> wf r) /\
+  (rtruediv_scalar a k = Ok r -> wf r) /\ wf (neg_cells a) /\ wf (abs_cells a).
+Proof.
+  intros o a b k l r Ha Hb. split; [|split; [|split; [|split; [|split; [|split]]]]].
+  - now apply k_sparse_wf.
+  - now apply ik_sparse_wf.
+  - now apply k_scalar_wf.
+  - now apply k_array_wf.
+  - now apply rtruediv_scalar_wf.
+  - now apply neg_cells_wf.
+  - now apply abs_cells_wf.
+Qed.
